@@ -44,6 +44,18 @@ pub mod _benchable {
     pub use super::iter::Bytes;
 }
 
+#[cfg(httparse_verif)]
+#[doc(hidden)]
+// WARNING: verification hooks, compiled only with `--cfg httparse_verif`
+pub mod __verif {
+    #[cfg(all(
+        httparse_simd,
+        not(any(httparse_simd_target_feature_sse42, httparse_simd_target_feature_avx2)),
+        any(target_arch = "x86", target_arch = "x86_64"),
+    ))]
+    pub use super::simd::verif_runtime::{cached, force_backend, reset_cache, set_hook};
+}
+
 /// Determines if byte is a method token char.
 ///
 /// > ```notrust
